@@ -491,10 +491,16 @@ impl Val for i128 {
     const CLASS: u8 = 0;
     const TRACKED: bool = false;
     fn make(pay: u64) -> Self {
-        -(pay as i128) - 1
+        // the whole width is used and every other payload is negative
+        let hi = if pay % 2 == 1 { !pay } else { pay };
+        (((hi as u128) << 64) | (pay.rotate_left(17) ^ 0x8000_0000_0000_0001) as u128) as i128
     }
     fn obs(&self) -> Obs {
-        Obs { inst: 0, pay: (-(*self) - 1) as u64 }
+        let lo = (*self as u128) as u64;
+        let hi = ((*self as u128) >> 64) as u64;
+        let pay = (lo ^ 0x8000_0000_0000_0001).rotate_right(17);
+        let ok = hi == if pay % 2 == 1 { !pay } else { pay };
+        Obs { inst: 0, pay: if ok { pay } else { lo ^ hi ^ 0xbad } }
     }
     fn set_pay(&mut self, pay: u64) {
         *self = Self::make(pay);
